@@ -1278,7 +1278,7 @@ package scipipe
 
 //@ define joinPort(portInfos map[string]*PortInfo, k string) bool = k in portInfos && portInfos[k].join && portInfos[k].joinSep != ""
 //@ define subChan(inIPs map[string]*FileIP, k string) chan *FileIP = inIPs[k].SubStream.Chan
-//@ define wfJoinInputs(portInfos map[string]*PortInfo, inIPs map[string]*FileIP) bool = (forall k string :: k in portInfos ==> portInfos[k] != nil && allocated(portInfos[k])) && (forall k string :: joinPort(portInfos, k) ==> allocated(inIPs[k]) && allocated(inIPs[k].SubStream) && allocated(subChan(inIPs, k))) && (forall k1 string, k2 string :: joinPort(portInfos, k1) && joinPort(portInfos, k2) && k1 != k2 ==> subChan(inIPs, k1) != subChan(inIPs, k2))
+//@ define wfJoinInputs(portInfos map[string]*PortInfo, inIPs map[string]*FileIP) bool = portInfos != nil && (forall k string :: k in portInfos ==> portInfos[k] != nil) && (forall k string :: joinPort(portInfos, k) ==> k in inIPs && inIPs[k] != nil && inIPs[k].SubStream != nil && subChan(inIPs, k) != nil) && (forall k1 string, k2 string :: joinPort(portInfos, k1) && joinPort(portInfos, k2) && k1 != k2 ==> subChan(inIPs, k1) != subChan(inIPs, k2))
 
 //@ func NewTask(workflow, process, name, cmdPat, inIPs, outPathFuncs, portInfos, params, tags, prepend, customExecute, cores) (t)
 //@   props C04 C06 C08 C09 C17 C18
